@@ -15,7 +15,7 @@ RULE = ("case = (media kind, 32-byte key from seed, plaintext length, content se
         "enumerated first (260 cases), then seeded larger lengths (block-aligned and not, up to 1 MiB); within a case the "
         "fault-free configuration runs first (4 sender/receiver pairings of yowsup and reference, byte-identical "
         "ciphertext), then every fault: each byte position x {0x01,0x80,0xff} flips (all positions up to 4 KiB of blob, "
-        "seeded 600 positions beyond), every truncation length (same bound), wrong key, the 3 wrong kinds; "
+        "seeded 600 positions beyond), every truncation length (same bound), 20 extension lengths after and before the tag, wrong key, the 3 wrong kinds; "
         "distinct = distinct (kind,len,key) digests; non-trivial = at least one fault was applied to a blob")
 COMPONENTS = {"real": ["yowsup.layers.protocol_media.mediacipher.MediaCipher (encrypt/decrypt and the per-kind wrappers)",
                        "axolotl HKDFv3", "cryptography AES-CBC"],
@@ -23,7 +23,7 @@ COMPONENTS = {"real": ["yowsup.layers.protocol_media.mediacipher.MediaCipher (en
 ASSUMPTIONS = ["six 1.17 shim on sys.path", "no scheduling/time dimension: single task, faults on the blob only",
                "a 10-byte MAC collision (2^-80) is treated as impossible"]
 BUDGET = {"quick": (700, 120), "thorough": (6000, 900)}
-FAULTS = ["blob_flip", "blob_truncate", "wrong_key", "wrong_kind"]
+FAULTS = ["blob_flip", "blob_truncate", "blob_extend", "wrong_key", "wrong_kind"]
 PROBES = ["aligned_length", "empty_plaintext", "large_blob", "interop_pairs"]
 SHRINK = []
 EXHAUSTIVE = {"quick": False, "thorough": False}
@@ -84,7 +84,7 @@ def run(case):
     r = stream(case["seed"], "content")
     key = r.randbytes(32)
     plain = r.randbytes(n)
-    faults = {"blob_flip": 0, "blob_truncate": 0, "wrong_key": 0, "wrong_kind": 0}
+    faults = {"blob_flip": 0, "blob_truncate": 0, "blob_extend": 0, "wrong_key": 0, "wrong_kind": 0}
     probes = {"aligned_length": 1 if n % 16 == 0 and n else 0, "empty_plaintext": 1 if n == 0 else 0,
               "large_blob": 1 if n >= 65536 else 0, "interop_pairs": 0}
     viol = []
@@ -155,6 +155,14 @@ def run(case):
     for c in cuts:
         faults["blob_truncate"] += 1
         must_reject(blob[:c], key, kind, "truncated to %d of %d bytes" % (c, L), "truncate")
+    # bytes appended to / inserted into the blob (1..17, 31, 32, 33 extra bytes; arbitrary and "looks like more ciphertext")
+    er = stream(case["seed"], "extend")
+    for extra in list(range(1, 18)) + [31, 32, 33]:
+        tail = er.randbytes(extra)
+        faults["blob_extend"] += 1
+        must_reject(blob + tail, key, kind, "%d bytes appended after the tag" % extra, "extend")
+        faults["blob_extend"] += 1
+        must_reject(blob[:-10] + tail + blob[-10:], key, kind, "%d bytes inserted before the tag" % extra, "extend")
     wk = bytearray(key)
     wk[case["seed"] % 32] ^= 0x10
     faults["wrong_key"] += 1
